@@ -47,17 +47,30 @@ func c09Bytes(b []byte) string {
 		lit = nil
 	}
 	for i := 0; i < len(b); {
-		j := i
-		for j < len(b) && b[j] == b[i] {
-			j++
+		// longest stretch from i with a period of up to 8 bytes
+		best, bestP := 0, 0
+		for p := 1; p <= 8 && i+p <= len(b); p++ {
+			j := i + p
+			for j < len(b) && b[j] == b[j-p] {
+				j++
+			}
+			if j-i > best {
+				best, bestP = j-i, p
+			}
 		}
-		if j-i >= 64 {
+		switch {
+		case best >= 64 && bestP == 1:
 			flush()
-			segs = append(segs, fmt.Sprintf("(repN %d %d)", j-i, b[i]))
-		} else {
-			lit = append(lit, b[i:j]...)
+			segs = append(segs, fmt.Sprintf("(repN %d %d)", best, b[i]))
+			i += best
+		case best >= 64:
+			flush()
+			segs = append(segs, fmt.Sprintf("(cycN %d %s)", best, coqBytes(b[i:i+bestP])))
+			i += best
+		default:
+			lit = append(lit, b[i])
+			i++
 		}
-		i = j
 	}
 	flush()
 	if len(segs) == 1 {
@@ -137,9 +150,9 @@ type c09Client struct {
 	wrote  chan struct{}
 	bad    error // script violation seen inside a callback
 
-	txn  uint64    // startTx calls so far
-	acc  [3]uint64 // persisted publishes accepted per level
-	conn0 []byte   // the CONNECT packet as written
+	txn   uint64    // startTx calls so far
+	acc   [3]uint64 // persisted publishes accepted per level
+	conn0 []byte    // the CONNECT packet as written
 }
 
 func (k *c09Client) onRead(c *simConn, armed bool, want int) readAns {
@@ -407,7 +420,16 @@ func c09StrBlock(cs *caseSet, topic bool, prefix, alpha []byte, depth int) {
 	}
 	rec(depth)
 	kind := fmt.Sprintf("strings-%dbyte-block", len(prefix)+depth)
-	cs.add(fmt.Sprintf("StrBlock %s %s %s %s %s", coqBool(topic), c09Bytes(prefix), coqBytes(alpha), coqNat(depth), c09Bytes(res)),
+	al := coqBytes(alpha)
+	if len(alpha) == 256 {
+		al = "allb" // 0..255 in order, as built by the caller
+		for i, a := range alpha {
+			if int(a) != i {
+				al = coqBytes(alpha)
+			}
+		}
+	}
+	cs.add(fmt.Sprintf("StrBlock %s %s %s %s %s", coqBool(topic), c09Bytes(prefix), al, coqNat(depth), c09Bytes(res)),
 		map[string]any{"kind": kind, "topicCheck": topic, "prefix": fmt.Sprintf("%x", prefix), "alphabet": len(alpha), "depth": depth, "strings": len(res)},
 		kind, true)
 }
@@ -636,13 +658,16 @@ func c09Emitted(cs *caseSet, r *rng, tier string) error {
 	defer k.close()
 
 	// payload pattern; every slice of it is a message
-	pattern := make([]byte, 2097153+16)
+	pattern := make([]byte, 16843009+16)
 	for i := range pattern {
 		pattern[i] = byte(i*7 + i>>8)
 	}
 
 	// PUBLISH: remaining length across every width boundary
-	remaining := []int{125, 126, 127, 128, 129, 16381, 16382, 16383, 16384, 16385, 2097149, 2097150, 2097151, 2097152, 2097153}
+	// ... and 0x101, 0x10101, 0x1010101: every 7-bit group has its top bit clear, so a
+	// lost continuation bit shows in each length byte
+	remaining := []int{125, 126, 127, 128, 129, 257, 16381, 16382, 16383, 16384, 16385, 65793,
+		2097149, 2097150, 2097151, 2097152, 2097153, 16843009}
 	for level := 0; level < 3; level++ {
 		for _, retain := range []bool{false, true} {
 			topic := []string{"t/0", "é/1", "t/€"}[level]
@@ -693,12 +718,13 @@ func c09Emitted(cs *caseSet, r *rng, tier string) error {
 			c09EmitReq(cs, k, "subscribe", c09Req{kind: 3, level: level, fs: fs})
 		}
 		// remaining length 127/128 and 16383/16384 with a single filter
-		for _, rl := range []int{127, 128, 16383, 16384} {
+		for _, rl := range []int{127, 128, 257, 16383, 16384} {
 			if rl-5 > c09ShipMax && tier != "thorough" {
 				continue
 			}
 			c09EmitReq(cs, k, "subscribe-width-boundary", c09Req{kind: 3, level: level, fs: []string{strings.Repeat("s", rl-5)}})
 		}
+		c09EmitReq(cs, k, "subscribe-width-boundary", c09Req{kind: 3, level: level, fs: []string{strings.Repeat("s", 65535), strings.Repeat("t", 65793-2-6-65535)}})
 		c09EmitReq(cs, k, "subscribe-filter-length", c09Req{kind: 3, level: level, fs: []string{"a", strings.Repeat("h", 65535)}})
 	}
 	for n := 1; n <= 5; n++ {
@@ -708,12 +734,13 @@ func c09Emitted(cs *caseSet, r *rng, tier string) error {
 		}
 		c09EmitReq(cs, k, "unsubscribe", c09Req{kind: 4, fs: fs})
 	}
-	for _, rl := range []int{127, 128, 16383, 16384} {
+	for _, rl := range []int{127, 128, 257, 16383, 16384} {
 		if rl-4 > c09ShipMax && tier != "thorough" {
 			continue
 		}
 		c09EmitReq(cs, k, "unsubscribe-width-boundary", c09Req{kind: 4, fs: []string{strings.Repeat("u", rl-4)}})
 	}
+	c09EmitReq(cs, k, "unsubscribe-width-boundary", c09Req{kind: 4, fs: []string{strings.Repeat("u", 65535), strings.Repeat("v", 65793-2-4-65535)}})
 	c09EmitReq(cs, k, "unsubscribe-filter-length", c09Req{kind: 4, fs: []string{strings.Repeat("h", 65535), "b"}})
 	if tier == "thorough" {
 		// four-byte width: 32 filters
